@@ -83,6 +83,12 @@ func GenFunc(prog *Prog, fn *ssa.Function, fc *FuncContract) *VC {
 		enc.notes["global invariant "+u+" assumed at entry (established by the package initialiser's contract, preserved per the global-frame obligation)"] = true
 	}
 	vc.runBody(fr, st0, "true")
+	for _, cs := range fc.CallSites {
+		if cs.Hits == 0 {
+			vc.errorf("callsite %s: no call of %s in %s (stale clause)", cs.Callee, cs.Callee, fn.Name())
+		}
+		cs.Hits = 0
+	}
 	// postconditions: all return points are merged into one exit state
 	if len(fr.rets) > 0 {
 		var conds []string
@@ -111,7 +117,7 @@ func GenFunc(prog *Prog, fn *ssa.Function, fc *FuncContract) *VC {
 			}
 			return vc.paramLookup(fr, name)
 		}
-		ctx2 := &SpecCtx{vc: vc, lookup: lk2, st: exitSt, oldSt: st0, oldLookup: lk, pkg: fn.Pkg.Pkg, fnName: fn.Name()}
+		ctx2 := &SpecCtx{vc: vc, lookup: lk2, st: exitSt, oldSt: st0, oldLookup: lk, pkg: fn.Pkg.Pkg, fnName: fn.Name(), fr: fr}
 		for k, en := range fc.Ensures {
 			t, err := ctx2.EvalBool(en.E)
 			if err != nil {
